@@ -19,6 +19,13 @@ CHECKS = {
          "quick: counts {0,1,2,3,5,9,10,11,12}, <=14 epochs, <=2 resizes; thorough: counts 0..12, <=30 epochs; after every step snapshot(d) for all d, snapshotByEpoch/listNodes(e) for a window of epochs, netmap(), raw scan of ring slots and per-epoch lists, and a probe tick after every accepted resize", "4.8"),
  "C09": ("chainmc", "explicit-state BFS over lock/burn/transfer/tick sequences with up to 3 simultaneous locks, lock-step model of lock records",
          "all sequences up to depth 5 / 8; until in the past/present/future and 0, zero-amount locks, partial and full burns, ticks by +1/+2, direct balance.newEpoch; every tick must release exactly the expired locks, once, with the remaining balance", "4.9"),
+
+ "C10": ("chainmc", "explicit-state BFS over register/registerTLD/transfer/renew/setAdmin/time-step sequences on the real NNS bytecode, lock-step ownership model",
+         "all sequences up to depth 4 / 6 over 5 names (2nd..4th level, two TLDs), 3 owners, a contract receiver, an admin, wrong-signer variants, clock steps to exp-1/exp/exp+1 of the earliest-expiring name and +1 year; after every step totalSupply, balanceOf, tokensOf, ownerOf, properties (expiration, admin), isAvailable for every name, Transfer/Renew/SetAdmin notifications", "4.10"),
+ "C11": ("chainmc", "explicit-state BFS over ownership histories crossed with every mutating NNS method under signer sets {owner, former owner, admin, stranger, committee, Alphabet, new owner+admin}",
+         "all sequences up to depth 3 / 5 over ~150 operations on a 3-key committee (majority account differs from the Alphabet account): records, SOA, renew, setAdmin, transfer, sub-name registration, registerTLD, setPrice, TLD operations; an unauthorised call must fault with an empty storage diff, an authorised one must succeed with exactly the modelled effect", "4.11"),
+ "C12": ("chainmc", "two explicit-state BFS explorations (record lists incl. sub-names/conflicts/SOA/expiry; CNAME graphs) against a record-list model keyed by the enclosing registered name",
+         "records: all sequences up to depth 3 / 5 over add/set/delete on a name, its unregistered sub-name and a sub-sub-name, four types, the 16th/17th value, duplicates, SOA, registration conflicts, expiry and take-over, one block per mutation so SOA serials are distinguishable; CNAME: all sequences up to depth 5 / 16 over edges among five names forming chains of 0..4 links, a 2-cycle, a self-loop, a target kept under another name; after every step getRecords, getAllRecords (order, ids), resolve with and without trailing dot for every name and type", "4.12"),
 }
 
 NOT_YET = "check not built yet in this revision (work in progress; see DESIGN.md section 10)"
